@@ -59,3 +59,88 @@ pub fn c01(c: &Case) {
     }
     finish(bad, tried);
 }
+
+use rs_opw_kinematics::constraints::Constraints;
+fn near_mod(a: f64, b: f64, tol: f64) -> bool { let d = (a - b).rem_euclid(2.0 * PI); d.min(2.0 * PI - d) <= tol }
+fn same_mod(a: &Joints, b: &Joints, tol: f64, n: usize) -> bool { (0..n).all(|i| near_mod(a[i], b[i], tol)) }
+fn cost(a: &Joints, prev: &Joints, cen: &Joints, w: f64) -> f64 {
+    let dp: f64 = (0..6).map(|i| (a[i] - prev[i]).abs()).sum(); let dc: f64 = (0..6).map(|i| (a[i] - cen[i]).abs()).sum();
+    if w == 0.0 { dp } else if w == 1.0 { dc } else { dp * (1.0 - w) + dc * w }
+}
+fn constraint_sets(r: &mut Lcg) -> Vec<([f64; 6], [f64; 6])> {
+    let mut v = Vec::new();
+    v.push(([-2.9, -1.9, -2.3, -3.1, -2.1, -3.1], [2.9, 1.9, 2.3, 3.1, 2.1, 3.1]));                  // wide
+    v.push(([2.0, -1.0, 1.5, 2.5, -0.5, 3.0], [-2.0, 1.0, -1.5, -2.5, 0.5, -3.0]));                  // several wrapping
+    v.push(([0.0, 0.0, 0.0, 0.0, 0.0, 0.0], [0.0, 1.5, 0.0, 3.0, 0.0, 0.0]));                        // from == to on four joints
+    for _ in 0..4 { let mut f = [0.0; 6]; let mut t = [0.0; 6]; for j in 0..6 { f[j] = r.range(-3.1, 3.1); t[j] = if r.next() < 0.2 { f[j] } else { r.range(-3.1, 3.1) }; } v.push((f, t)); }
+    v
+}
+
+/// shared native search for C04 / C06 / C08 (and the entry-point part of C01): prop selects the clauses that are judged
+pub fn ik_search(c: &Case, prop: &str) {
+    let mut bad: Vec<String> = Vec::new(); let mut tried = 0usize;
+    let mut rng = Lcg(4242);
+    let weights = [0.0, 1.0, 0.35];
+    for (o, p) in robots(c) {
+        let dof5 = p.dof == 5;
+        let plain = OPWKinematics::new(p);
+        let csets = constraint_sets(&mut rng);
+        for (ci, (from, to)) in csets.iter().enumerate() {
+            let w = weights[ci % 3];
+            let cons = Constraints::new(*from, *to, w);
+            let k = OPWKinematics::new_with_constraints(p, cons);
+            for q in joint_battery(14, 7 + ci as u64) {
+                tried += 1;
+                let mut qq = q; if dof5 { qq[5] = 0.0; }
+                let pose = fk(&o, &qq); let pp = pose_of(&pose);
+                let wrist_singular = (qq[4] * o.sign[4] - o.off[4]).sin().abs() < 1e-3;
+                let mut prev = qq; for j in 0..6 { prev[j] += rng.range(-0.2, 0.2); }
+                let accept = |s: &Joints| -> Option<bool> { let mut all = Some(true); for j in 0..6 { match arc_accepts(from[j], to[j], s[j], 1e-9) { None => { all = None; break; } Some(false) => all = Some(false), _ => {} } } all };
+                let r = std::panic::catch_unwind(|| {
+                    let mut bad: Vec<String> = Vec::new();
+                    let runs: Vec<(&str, Vec<Joints>, Vec<Joints>, Option<Joints>)> = vec![
+                        ("inverse", k.inverse(&pp), plain.inverse(&pp), None),
+                        ("inverse_continuing", k.inverse_continuing(&pp, &prev), plain.inverse_continuing(&pp, &prev), Some(prev)),
+                        ("inverse_5dof", k.inverse_5dof(&pp, 0.77), plain.inverse_5dof(&pp, 0.77), None),
+                        ("inverse_continuing_5dof", k.inverse_continuing_5dof(&pp, &prev), plain.inverse_continuing_5dof(&pp, &prev), Some(prev)),
+                    ];
+                    for (name, got, unc, pv) in runs.iter() {
+                        let five = name.ends_with("5dof") || dof5; let nj = if five { 5 } else { 6 };
+                        if prop == "C08" || prop == "C01" {
+                            for s in got { if let Some(false) = accept(s) { bad.push(format!("{}: answer {:?} violates the limits from={:?} to={:?}", name, s, from, to)); } }
+                            for u in unc { if let Some(true) = accept(u) { if !got.iter().any(|s| same_mod(s, u, 1e-6, 6)) { bad.push(format!("{}: compliant answer {:?} of the unconstrained query is withheld (from={:?} to={:?})", name, u, from, to)); } } }
+                        }
+                        if prop == "C01" { for s in got { if let Err(e) = lands(&o, s, &pose, !five, TOL) { bad.push(format!("{}: {}", name, e)); } } }
+                        if prop == "C06" && five {
+                            let want6 = match *name { "inverse" => Some(0.0), "inverse_5dof" => Some(0.77), _ => Some(prev[5]) };
+                            for s in unc { if let Some(w6) = want6 { if s[5] != w6 { bad.push(format!("{}: J6 = {} instead of the caller's {}", name, s[5], w6)); } }
+                                           if let Err(e) = lands(&o, s, &pose, false, TOL) { bad.push(format!("{}: {}", name, e)); } }
+                            if !wrist_singular && !unc.iter().any(|s| same_mod(s, &qq, 1e-5, 5)) { bad.push(format!("{}: originating J1..J5 {:?} not among the answers (dof={})", name, qq, if dof5 { 5 } else { 6 })); }
+                        }
+                        if prop == "C04" {
+                            if let Some(pv) = pv {
+                                for s in unc { for j in 0..nj.max(6) { if (s[j] - pv[j]).abs() > PI + 1e-9 { bad.push(format!("{}: joint {} of {:?} is not the representative nearest to previous {:?}", name, j, s, pv)); } } }
+                                let cen = cons.centers;
+                                for pair in got.windows(2) { if cost(&pair[0], pv, &cen, w) > cost(&pair[1], pv, &cen, w) + 1e-9 { bad.push(format!("{}: answers not ordered by the documented cost (weight {})", name, w)); } }
+                                for pair in unc.windows(2) { if cost(&pair[0], pv, &[0.0; 6], 0.0) > cost(&pair[1], pv, &[0.0; 6], 0.0) + 1e-9 { bad.push(format!("{}: answers not ordered by distance to previous", name)); } }
+                                let base = if five { plain.inverse_5dof(&pp, pv[5]) } else { plain.inverse(&pp) };
+                                for b in &base { if !unc.iter().any(|s| same_mod(s, b, 1e-6, nj)) { bad.push(format!("{}: plain answer {:?} missing from the continuation answers", name, b)); } }
+                            }
+                        }
+                    }
+                    // previous realises the pose and is not singular => first
+                    if prop == "C04" && !wrist_singular && !dof5 {
+                        let s = plain.inverse_continuing(&pp, &qq);
+                        if s.is_empty() || !same_mod(&s[0], &qq, 1e-5, 6) || (0..6).any(|j| (s[0][j] - qq[j]).abs() > 1e-5) { bad.push(format!("inverse_continuing: previous joints {:?} realise the pose but are not the first answer", qq)); }
+                    }
+                    bad
+                });
+                match r { Ok(b) => bad.extend(b), Err(_) => bad.push(format!("panic for joints {:?}", q)) }
+            }
+        }
+    }
+    finish(bad, tried);
+}
+pub fn c04(c: &Case) { ik_search(c, "C04"); }
+pub fn c06(c: &Case) { ik_search(c, "C06"); }
+pub fn c08(c: &Case) { ik_search(c, "C08"); }
